@@ -1,1 +1,604 @@
-fn main(){}
+//! C05 — typed deserialization is position-faithful; shape mismatches are errors.
+//!
+//! Independent reference model: `interp(Ty, RNode)` over the raw parser tree says
+//! what a (run-time type description, document) pair must give — `MustBe(v)`,
+//! `MustErr`, `ErrOr(v)` (bounded unspecified class) or `Unspecified`. The real
+//! code is `with_deserializer_from_str_with_options(doc, opts, |de| SchemaSeed(ty).deserialize(de))`
+//! (a DeserializeSeed that behaves like derived code) and, for a family of real
+//! derived types, `from_str::<T>`. Scalars are not interpreted by the reference:
+//! a scalar's value is what the library returns for that scalar alone.
+
+mod derived;
+mod docgen;
+mod interp;
+
+use docgen::{Builder, Chooser, Edit, Intent};
+use interp::{Expect, Interp, Leaf};
+use saphyr_parser::ScalarStyle;
+use serde::de::DeserializeSeed;
+use serde_json::json;
+use std::collections::{BTreeMap, HashMap};
+use vcore::reftree::{self, RNode};
+use vcore::rng::{Rng, fnv_parts};
+use vcore::run::{Finish, Run, Tier, par_range};
+use vcore::ty::{self, SchemaSeed, TVal, Ty, TyCfg, TyGrammar};
+use vcore::ydoc::{self, Node, RenderOpts, Style};
+
+/// Safety cap on documents per type in the exhaustive part (never reached at the registered bounds;
+/// `exhaustive/truncated_types` counts the types where it was).
+const TAPE_CAP: u64 = 200_000;
+
+fn options() -> serde_saphyr::Options {
+    serde_saphyr::Options::default()
+}
+
+fn run_seed(ty: &Ty, doc: &str) -> Result<Result<TVal, serde_saphyr::Error>, String> {
+    vcore::obs::catch(|| {
+        serde_saphyr::with_deserializer_from_str_with_options(doc, options(), |de| SchemaSeed(ty).deserialize(de))
+    })
+}
+
+// ------------------------------------------------------------------ leaf oracle
+
+#[derive(Default)]
+struct LeafOracle {
+    cache: HashMap<(String, String, u8, Option<String>), Expect>,
+    calls: u64,
+    panics: Vec<(String, String)>,
+}
+
+fn style_of(s: ScalarStyle) -> Style {
+    reftree::style_of(s)
+}
+
+impl Leaf for LeafOracle {
+    fn leaf(&mut self, ty: &Ty, value: &str, style: ScalarStyle, tag: Option<&str>) -> Expect {
+        let key = (format!("{ty:?}"), value.to_string(), reftree::style_char(style) as u8, tag.map(|s| s.to_string()));
+        if let Some(e) = self.cache.get(&key) {
+            return e.clone();
+        }
+        let node = Node::Scalar { text: value.to_string(), style: style_of(style), tag: tag.map(|s| s.to_string()), anchor: None };
+        let text = ydoc::render(&node, &RenderOpts::new()).text;
+        let confirmed = matches!(
+            reftree::parse_one(&text),
+            Some(RNode::Scalar { value: v, style: s, tag: t, .. }) if v == value && s == style && t.as_deref() == tag
+        );
+        let e = if !confirmed {
+            Expect::Unspecified("leaf-document-not-confirmed-by-parser")
+        } else {
+            self.calls += 1;
+            match run_seed(ty, &text) {
+                Ok(Ok(v)) => Expect::MustBe(v),
+                Ok(Err(_)) => Expect::MustErr("scalar-rejected-for-type"),
+                Err(p) => {
+                    self.panics.push((text.clone(), p));
+                    Expect::Unspecified("leaf-panic")
+                }
+            }
+        };
+        if self.cache.len() < 200_000 {
+            self.cache.insert(key, e.clone());
+        }
+        e
+    }
+}
+
+// ------------------------------------------------------------------ verdicts
+
+/// Per work-item counters (flushed once, to keep the hot loop lock-free).
+#[derive(Default)]
+struct Local {
+    c: BTreeMap<String, u64>,
+    obs: BTreeMap<&'static str, std::collections::BTreeSet<String>>,
+}
+
+impl Local {
+    fn count(&mut self, k: &str) {
+        *self.c.entry(k.to_string()).or_insert(0) += 1;
+    }
+    fn add(&mut self, k: &str, n: u64) {
+        *self.c.entry(k.to_string()).or_insert(0) += n;
+    }
+    fn observe(&mut self, set: &'static str, v: String) {
+        self.obs.entry(set).or_default().insert(v);
+    }
+    fn flush(self, run: &Run) {
+        for (k, v) in self.c {
+            run.count(&k, v);
+        }
+        for (s, vs) in self.obs {
+            for v in vs {
+                run.observe(s, &v);
+            }
+        }
+    }
+}
+
+/// Kind of the type at the first place where two values differ.
+fn diff_kind(ty: &Ty, a: &TVal, b: &TVal) -> String {
+    fn kind(t: &Ty) -> &'static str {
+        match t {
+            Ty::Option(_) => "option",
+            Ty::Seq(_) => "seq",
+            Ty::Tuple(_) => "tuple",
+            Ty::TupleStruct(..) => "tuple-struct",
+            Ty::Map(..) => "map",
+            Ty::Struct(_) => "struct",
+            Ty::Enum(_) => "enum",
+            Ty::Newtype(..) => "newtype",
+            _ => "scalar",
+        }
+    }
+    fn list(tys: &mut dyn Iterator<Item = &Ty>, xs: &[TVal], ys: &[TVal], me: &'static str) -> String {
+        if xs.len() != ys.len() {
+            return format!("{me}-length");
+        }
+        for ((t, x), y) in tys.zip(xs).zip(ys) {
+            if x != y {
+                return diff_kind(t, x, y);
+            }
+        }
+        me.to_string()
+    }
+    match (ty, a, b) {
+        (Ty::Newtype(_, t), _, _) => diff_kind(t, a, b),
+        (Ty::Option(t), TVal::Some(x), TVal::Some(y)) => diff_kind(t, x, y),
+        (Ty::Seq(t), TVal::Seq(xs), TVal::Seq(ys)) => list(&mut std::iter::repeat(&**t), xs, ys, "seq"),
+        (Ty::Tuple(ts), TVal::Tuple(xs), TVal::Tuple(ys)) | (Ty::TupleStruct(_, ts), TVal::Tuple(xs), TVal::Tuple(ys)) => {
+            list(&mut ts.iter(), xs, ys, kind(ty))
+        }
+        (Ty::Struct(s), TVal::Struct(xs), TVal::Struct(ys)) => list(&mut s.body.fields.iter().map(|f| &f.ty), xs, ys, "struct"),
+        (Ty::Map(k, v), TVal::Map(xs), TVal::Map(ys)) => {
+            if xs.len() != ys.len() {
+                return "map-length".into();
+            }
+            for ((ka, va), (kb, vb)) in xs.iter().zip(ys) {
+                if ka != kb {
+                    return format!("map-key:{}", diff_kind(k, ka, kb));
+                }
+                if va != vb {
+                    return diff_kind(v, va, vb);
+                }
+            }
+            "map".into()
+        }
+        (Ty::Enum(e), TVal::Variant(i, x), TVal::Variant(j, y)) => {
+            if i != j {
+                return "enum-variant".into();
+            }
+            match e.variants.get(*i as usize) {
+                Some(ty::VariantTy::Newtype(t)) => diff_kind(t, x, y),
+                Some(ty::VariantTy::Tuple(ts)) => match (&**x, &**y) {
+                    (TVal::Tuple(xs), TVal::Tuple(ys)) => list(&mut ts.iter(), xs, ys, "tuple-variant"),
+                    _ => "enum".into(),
+                },
+                Some(ty::VariantTy::Struct(f)) => match (&**x, &**y) {
+                    (TVal::Struct(xs), TVal::Struct(ys)) => list(&mut f.fields.iter().map(|f| &f.ty), xs, ys, "struct-variant"),
+                    _ => "enum".into(),
+                },
+                _ => "enum".into(),
+            }
+        }
+        _ => kind(ty).to_string(),
+    }
+}
+
+struct CaseMeta<'a> {
+    /// "seed" or "derived:<name>"
+    mode: &'a str,
+    edit: Option<&'a Edit>,
+    intent: Option<Intent>,
+    exact: bool,
+    flow: bool,
+    part: &'static str,
+}
+
+enum Runner<'a> {
+    Seed,
+    Derived(&'a derived::Derived),
+}
+
+/// Judge one (type, document) pair. Returns false if the case was not evaluated.
+fn check_pair(run: &Run, lo: &mut LeafOracle, loc: &mut Local, ty: &Ty, doc: &str, runner: &Runner, meta: &CaseMeta) -> bool {
+    let case = || {
+        json!({
+            "ty": ty.to_json(), "ty_text": ty.to_string(), "doc": doc, "mode": meta.mode,
+            "edit": meta.edit.map(|e| e.label()), "flow": meta.flow, "part": meta.part,
+        })
+    };
+    let t0 = std::time::Instant::now();
+    let Some(rnode) = reftree::parse_one(doc) else {
+        run.inconclusive("generator-invalid: document is not one parser-confirmed document");
+        return false;
+    };
+    let t1 = std::time::Instant::now();
+    let mut ip = Interp { leaf: lo, bare_nonunit_seen: false, tail_ctx: None };
+    let expect = ip.interp(ty, &rnode);
+    let t2 = std::time::Instant::now();
+    loc.add("time_us/raw_parse", (t1 - t0).as_micros() as u64);
+    loc.add("time_us/interp_and_leaf_oracle", (t2 - t1).as_micros() as u64);
+    let bare_nonunit = ip.bare_nonunit_seen;
+    // One root cause, several symptoms: a bare scalar naming a non-unit variant makes the
+    // library read the *following* node as the payload. Any wrongly accepted document that
+    // contains such a scalar is classified under this one signature.
+    let ok_sig = |default: String| {
+        if bare_nonunit { "C05:bare-name-for-nonunit-variant:following-node-consumed".to_string() } else { default }
+    };
+    for (text, p) in lo.panics.drain(..) {
+        run.violation(
+            &format!("C05:panic:{}", vcore::obs::panic_site(&p)),
+            json!({"ty": ty.to_json(), "ty_text": ty.to_string(), "doc": text, "mode": "seed", "part": "leaf"}),
+            p,
+        );
+    }
+    // soundness guards on my own generator/model
+    if meta.exact
+        && let Expect::MustErr(r) = &expect
+    {
+        run.inconclusive(&format!("model disagreement: exact document judged MustErr({r})"));
+        return false;
+    }
+    if meta.intent == Some(Intent::MustErr) && matches!(expect, Expect::MustBe(_) | Expect::ErrOr(..)) {
+        run.inconclusive(&format!(
+            "model disagreement: edit {} intended MustErr but interpreter allows a value",
+            meta.edit.map(|e| e.class()).unwrap_or("?")
+        ));
+        return false;
+    }
+    run.eval();
+    loc.count(&format!("part/{}", meta.part));
+    let t3 = std::time::Instant::now();
+    let actual = match runner {
+        Runner::Seed => run_seed(ty, doc),
+        Runner::Derived(d) => vcore::obs::catch(|| (d.run)(doc)),
+    };
+    loc.add("time_us/library_call", t3.elapsed().as_micros() as u64);
+    let actual = match actual {
+        Err(p) => {
+            run.violation(&format!("C05:panic:{}", vcore::obs::panic_site(&p)), case(), p);
+            return true;
+        }
+        Ok(a) => a,
+    };
+    let sorted = matches!(runner, Runner::Derived(_));
+    if sorted {
+        // harness soundness guard: the dynamic seed must behave like the derived code on the same input
+        match (run_seed(ty, doc), &actual) {
+            (Ok(Ok(a)), Ok(b)) if a.sorted_maps() == b.sorted_maps() => loc.count("seed_vs_derive/agree:value"),
+            (Ok(Err(_)), Err(_)) => loc.count("seed_vs_derive/agree:error"),
+            _ => {
+                loc.count("seed_vs_derive/DISAGREE");
+                run.inconclusive("harness: SchemaSeed and the derived type disagree on the same document");
+            }
+        }
+    }
+    let same = |a: &TVal, b: &TVal| if sorted { a.sorted_maps() == b.sorted_maps() } else { a == b };
+    let edit_class = meta.edit.map(|e| e.class()).unwrap_or("exact");
+    if let Err(e) = &actual {
+        loc.observe("error_kinds", vcore::errs::kind(e));
+    }
+    match (&expect, &actual) {
+        (Expect::Unspecified(c), _) => {
+            loc.count(&format!("unspecified/{c}"));
+            loc.count("verdict/unspecified");
+        }
+        (Expect::MustBe(v), Ok(got)) => {
+            if same(v, got) {
+                loc.count("verdict/held:value");
+                loc.count(&format!("held_value_by_edit/{edit_class}"));
+            } else {
+                run.violation(
+                    &ok_sig(format!("C05:wrong-value:{}", diff_kind(ty, v, got))),
+                    case(),
+                    format!("expected {v:?} | got {got:?}"),
+                );
+            }
+        }
+        (Expect::MustBe(v), Err(e)) => {
+            run.violation(
+                &format!("C05:rejected:{}", vcore::errs::kind(e)),
+                case(),
+                format!("expected Ok({v:?}) | got Err({e})"),
+            );
+        }
+        (Expect::MustErr(r), Ok(got)) => {
+            run.violation(&ok_sig(format!("C05:accepted:{r}")), case(), format!("must fail ({r}) | got Ok({got:?})"));
+        }
+        (Expect::MustErr(r), Err(_)) => {
+            loc.count("verdict/held:error");
+            loc.count(&format!("held_error_by_reason/{r}"));
+            loc.count(&format!("held_error_by_edit/{edit_class}"));
+        }
+        (Expect::ErrOr(v, c), Ok(got)) => {
+            if same(v, got) {
+                loc.count(&format!("unspecified/{c}:value"));
+                loc.count("verdict/unspecified-bounded");
+            } else {
+                run.violation(
+                    &ok_sig(format!("C05:wrong-value-in-bounded-class:{c}")),
+                    case(),
+                    format!("allowed Err or {v:?} | got {got:?}"),
+                );
+            }
+        }
+        (Expect::ErrOr(_, c), Err(_)) => {
+            loc.count(&format!("unspecified/{c}:error"));
+            loc.count("verdict/unspecified-bounded");
+        }
+    }
+    if ty.depth() >= 2 {
+        run.nontrivial(fnv_parts(&[format!("{ty:?}").as_bytes(), doc.as_bytes(), meta.mode.as_bytes()]));
+    }
+    true
+}
+
+// ------------------------------------------------------------------ workloads
+
+fn render(n: &Node, flow: bool, ro: &RenderOpts) -> Option<String> {
+    let mut t = n.clone();
+    t.set_flow(flow);
+    reftree::render_checked(&t, ro).map(|(s, _)| s)
+}
+
+/// Build the exact document for the current tape, then every (or a sample of) single edits.
+#[allow(clippy::too_many_arguments)]
+fn run_tape(
+    run: &Run,
+    lo: &mut LeafOracle,
+    loc: &mut Local,
+    ty: &Ty,
+    ch: &mut Chooser,
+    rich: bool,
+    max_len: usize,
+    flows: &[bool],
+    ro: &RenderOpts,
+    runner: &Runner,
+    mode: &str,
+    part: &'static str,
+    mut pick_edits: impl FnMut(usize) -> Option<Vec<usize>>,
+    sample_every: u64,
+) {
+    ch.rewind();
+    let (exact, sites) = {
+        let mut b = Builder::new(ch, rich, max_len);
+        let n = b.build(ty);
+        (n, b.sites)
+    };
+    for s in &sites {
+        loc.observe("sites", format!("{}@{}", s.kind, s.parent));
+    }
+    for &flow in flows {
+        match render(&exact, flow, ro) {
+            None => run.inconclusive("generator-invalid: exact document not parsed as intended"),
+            Some(doc) => {
+                let meta = CaseMeta { mode, edit: None, intent: None, exact: true, flow, part };
+                if check_pair(run, lo, loc, ty, &doc, runner, &meta) {
+                    loc.count(if flow { "cases/exact:flow" } else { "cases/exact:block" });
+                    if sample_every > 0 && fnv_parts(&[doc.as_bytes()]) % sample_every == 0 {
+                        run.sample(|| json!({"ty": ty.to_string(), "doc": doc, "edit": null, "mode": mode}));
+                    }
+                }
+            }
+        }
+    }
+    // flat list of (site, edit index)
+    let mut all: Vec<(usize, usize)> = Vec::new();
+    for (si, s) in sites.iter().enumerate() {
+        for ei in 0..s.edits.len() {
+            all.push((si, ei));
+        }
+    }
+    let chosen: Vec<usize> = match pick_edits(all.len()) {
+        Some(v) => v,
+        None => (0..all.len()).collect(),
+    };
+    for k in chosen {
+        let (si, ei) = all[k];
+        let (edit, intent) = sites[si].edits[ei].clone();
+        ch.rewind();
+        ch.frozen = true;
+        let (node, applied) = {
+            let mut b = Builder::new(ch, rich, max_len);
+            b.edit = Some((si, edit.clone()));
+            let n = b.build(ty);
+            (n, b.edit_applied)
+        };
+        ch.frozen = false;
+        if !applied {
+            run.inconclusive("generator-invalid: edit site not reached on rebuild");
+            continue;
+        }
+        for &flow in flows {
+            match render(&node, flow, ro) {
+                None => {
+                    loc.count(&format!("generator_invalid_by_edit/{}", edit.class()));
+                    run.inconclusive("generator-invalid: edited document not parsed as intended");
+                }
+                Some(doc) => {
+                    let meta = CaseMeta { mode, edit: Some(&edit), intent: Some(intent), exact: false, flow, part };
+                    if check_pair(run, lo, loc, ty, &doc, runner, &meta) {
+                        loc.count(&format!("cases/edit:{}", edit.class()));
+                        loc.observe("edit_at", format!("{}:{}@{}", edit.class(), sites[si].kind, sites[si].parent));
+                        if sample_every > 0 && fnv_parts(&[doc.as_bytes()]) % sample_every == 0 {
+                            run.sample(|| json!({"ty": ty.to_string(), "doc": doc, "edit": edit.label(), "mode": mode}));
+                        }
+                    }
+                }
+            }
+        }
+    }
+}
+
+fn main() {
+    let run = Run::from_args("C05");
+    if let Some(rep) = run.is_replay() {
+        let case = &rep["case"];
+        let ty = Ty::from_json(&case["ty"]).unwrap_or(Ty::Unit);
+        let doc = case["doc"].as_str().unwrap_or("").to_string();
+        let mode = case["mode"].as_str().unwrap_or("seed").to_string();
+        let fam = derived::family();
+        let runner = match mode.strip_prefix("derived:") {
+            Some(n) => fam.iter().find(|d| d.name == n).map(Runner::Derived).unwrap_or(Runner::Seed),
+            None => Runner::Seed,
+        };
+        let mut lo = LeafOracle::default();
+        let mut loc = Local::default();
+        let meta = CaseMeta { mode: &mode, edit: None, intent: None, exact: false, flow: false, part: "replay" };
+        check_pair(&run, &mut lo, &mut loc, &ty, &doc, &runner, &meta);
+        run.finish(Finish::new("replay"));
+    }
+
+    let tier = run.tier;
+    let ro = RenderOpts::new();
+
+    // ---- self-check of the shared machinery (harness sanity, not a verdict)
+    {
+        let pairs = ty::small_pairs(3, &TyGrammar::full(), 6);
+        let bad = pairs.iter().filter(|(t, v)| !t.check(v)).count();
+        run.count("selfcheck/small_pairs", pairs.len() as u64);
+        if bad > 0 {
+            run.inconclusive("harness self-check: small_pairs produced an ill-typed value");
+        }
+        let mut rng = Rng::stream(run.seed, 0xC05);
+        let mut bad = 0;
+        for _ in 0..2000 {
+            let t = ty::random_ty(&mut rng, 4);
+            let v = ty::random_val(&mut rng, &t);
+            if !t.check(&v) {
+                bad += 1;
+            }
+        }
+        if bad > 0 {
+            run.inconclusive("harness self-check: random_val produced an ill-typed value");
+        }
+    }
+
+    let only = std::env::var("C05_ONLY").unwrap_or_default();
+    let part_on = |p: &str| only.is_empty() || only.contains(p);
+    // ---- part A: exhaustive small schemas x all documents x all single edits
+    let max_nodes = tier.pick(3, 4);
+    let tys = ty::small_tys(max_nodes, &TyGrammar::small());
+    run.count("exhaustive/types", tys.len() as u64);
+    let truncated = std::sync::atomic::AtomicU64::new(0);
+    // cost estimate per type (number of cases), biggest first, so the long ones start early
+    let order: Vec<usize> = {
+        let costs: Vec<std::sync::atomic::AtomicU64> = tys.iter().map(|_| std::sync::atomic::AtomicU64::new(0)).collect();
+        par_range(if part_on("A") { tys.len() } else { 0 }, |i| {
+            let mut ch = Chooser::enumerating();
+            let mut cases = 0u64;
+            let mut tapes = 0u64;
+            loop {
+                ch.rewind();
+                let mut b = Builder::new(&mut ch, false, 2);
+                let _ = b.build(&tys[i]);
+                cases += 2 * (1 + b.sites.iter().map(|s| s.edits.len() as u64).sum::<u64>());
+                tapes += 1;
+                if !ch.next_tape() || tapes >= TAPE_CAP {
+                    break;
+                }
+            }
+            costs[i].store(cases, std::sync::atomic::Ordering::Relaxed);
+        });
+        let mut idx: Vec<usize> = (0..tys.len()).collect();
+        idx.sort_by_key(|&i| std::cmp::Reverse(costs[i].load(std::sync::atomic::Ordering::Relaxed)));
+        run.count("exhaustive/planned_cases", costs.iter().map(|c| c.load(std::sync::atomic::Ordering::Relaxed)).sum());
+        idx
+    };
+    vcore::run::par_range_chunk(if part_on("A") { tys.len() } else { 0 }, 1, |k| {
+        let i = order[k];
+        let ty = &tys[i];
+        let mut lo = LeafOracle::default();
+        let mut loc = Local::default();
+        let mut ch = Chooser::enumerating();
+        let mut tapes = 0u64;
+        loop {
+            run_tape(
+                &run, &mut lo, &mut loc, ty, &mut ch, false, 2, &[false, true], &ro, &Runner::Seed, "seed", "exhaustive",
+                |_| None, 4001,
+            );
+            tapes += 1;
+            if !ch.next_tape() {
+                break;
+            }
+            if tapes >= TAPE_CAP {
+                loc.count("exhaustive/truncated_types");
+                truncated.fetch_add(1, std::sync::atomic::Ordering::Relaxed);
+                break;
+            }
+        }
+        loc.add("exhaustive/documents", tapes);
+        loc.add("leaf_oracle_calls", lo.calls);
+        loc.flush(&run);
+    });
+
+    // ---- part B: random schemas of depth <= 3 / 4
+    let n_types = tier.pick(6_000, 120_000);
+    let depth = tier.pick(3, 4);
+    eprintln!("part A done at {:.1}s", run.elapsed_s());
+    par_range(if part_on("B") { n_types } else { 0 }, |i| {
+        let mut rng = Rng::stream(run.seed, i as u64);
+        let cfg = TyCfg { nullable_in_option: rng.chance(1, 8), ..TyCfg::default() };
+        let d = if rng.chance(1, 4) { 2 } else { depth };
+        let ty = ty::random_ty_with(&mut rng, d, &cfg);
+        let mut lo = LeafOracle::default();
+        let mut loc = Local::default();
+        loc.count(&format!("random/type_depth:{}", ty.depth()));
+        for j in 0..4u64 {
+            let mut ch = Chooser::random(Rng::stream(run.seed ^ 0x5EED, (i as u64) * 8 + j));
+            let flow = rng.chance(1, 3);
+            let ro = RenderOpts { indent: *rng.pick(&[1usize, 2, 4]), brk: "\n", compact: rng.bool() };
+            let mut erng = Rng::stream(run.seed ^ 0xED17, (i as u64) * 8 + j);
+            run_tape(
+                &run, &mut lo, &mut loc, &ty, &mut ch, true, 3, &[flow], &ro, &Runner::Seed, "seed", "random",
+                |n| Some((0..n.min(6)).map(|_| erng.below(n.max(1))).filter(|_| n > 0).collect()),
+                20011,
+            );
+        }
+        loc.add("leaf_oracle_calls", lo.calls);
+        loc.flush(&run);
+    });
+
+    // ---- part C: real derived types through from_str, same oracle
+    let fam = derived::family();
+    let n_derived = tier.pick(1_500, 30_000);
+    eprintln!("part B done at {:.1}s", run.elapsed_s());
+    par_range(if part_on("C") { fam.len() * n_derived } else { 0 }, |idx| {
+        let d = &fam[idx % fam.len()];
+        let i = (idx / fam.len()) as u64;
+        let mut rng = Rng::stream(run.seed ^ 0xDE71, idx as u64);
+        let mut lo = LeafOracle::default();
+        let mut loc = Local::default();
+        let mut ch = Chooser::random(Rng::stream(run.seed ^ 0xD0C5, idx as u64));
+        let flow = rng.chance(1, 3);
+        let ro = RenderOpts { indent: *rng.pick(&[2usize, 4]), brk: "\n", compact: rng.bool() };
+        let mode = format!("derived:{}", d.name);
+        let _ = i;
+        run_tape(
+            &run, &mut lo, &mut loc, &d.ty, &mut ch, true, 3, &[flow], &ro, &Runner::Derived(d), &mode, "derived",
+            |n| Some((0..n.min(8)).map(|_| rng.below(n.max(1))).filter(|_| n > 0).collect()),
+            10007,
+        );
+        // the dynamic seed on the same exact document must agree as well (cheap cross-check of SchemaSeed)
+        loc.flush(&run);
+    });
+
+    let fin = Finish::new(
+        "a case counts when the schema has depth >= 2 and the document is an exact match or exactly one near-miss edit away \
+         (every generated case is, by construction); distinct by hash(type, document, runner)",
+    );
+    let scope = format!(
+        "all types with <= {max_nodes} nodes of the grammar leaves {{i32, String, (), unit-only enum}}; unary Option / newtype / Vec / \
+         Map<String,_> / struct{{f0}} (+deny_unknown_fields) / enum{{V0|V1(T)}} / enum{{V0|V1{{f0:T}}}}; binary tuple / tuple struct / \
+         struct{{f0,f1}} (+deny) / enum{{V0|V1(T,U)}}  x  every matching document (Option none/some, lengths 0..=2, every variant in \
+         every notation `V`, `{{V: p}}`, `!!E V`, `!E V`, `!V`, `!V p`, optional fields present/absent, field order straight/rotated)  x  \
+         every single near-miss edit at every site  x  {{block, flow}}; in nested Vec/Map only lengths 0..=1 and for \
+         variants after the first only the notations `V` and `!V`"
+    );
+    let fin = if truncated.load(std::sync::atomic::Ordering::Relaxed) == 0 && part_on("A") { fin.exhaustive(scope) } else { fin };
+    let fin = fin
+    .assume("raw saphyr-parser event tree of the document is the ground truth for its shape")
+    .assume("value of a scalar for a scalar type = what the library returns for that scalar alone (leaf values are C06's subject)")
+    .assume("default Options (duplicate keys are errors)")
+    .min_nontrivial(if tier == Tier::Quick { 50_000 } else { 1_000_000 });
+    run.finish(fin);
+}
